@@ -1271,3 +1271,25 @@ Proof.
   - apply bufio_run_client_chunking; auto. rewrite !chunked_data. exact E.
   - rewrite bufio_run_client_pure by exact W1. rewrite chunked_data. reflexivity.
 Qed.
+
+(* chunk-level form of fill_tracks_error: a fill that meets an error chunk stores that error in
+   b.err and leaves an error tracked *)
+Lemma fill_err_chunk : forall st e r,
+  script st = Err e :: r -> is_eof e = false ->
+  berr (fill st) = Some (GE e) /\ tracked_err (fill st) <> None /\ script (fill st) = r.
+Proof.
+  intros st e r Hs Hne. unfold fill, max_consecutive_empty_reads. cbn [fill_loop].
+  unfold read_once. rewrite Hs. cbn [src_read]. cbn [set_berr berr tracked_err tracked script].
+  split; [reflexivity|]. split; [apply track_sets; exact Hne|reflexivity].
+Qed.
+
+Lemma fill_dataerr_chunk : forall st bs e r,
+  script st = DataErr bs e :: r -> length bs <= bufio_size - length (win st) -> is_eof e = false ->
+  berr (fill st) = Some (GE e) /\ tracked_err (fill st) <> None /\ script (fill st) = r /\
+  win (fill st) = win st ++ bs.
+Proof.
+  intros st bs e r Hs Hfit Hne. unfold fill, max_consecutive_empty_reads. cbn [fill_loop].
+  unfold read_once. rewrite Hs. cbn [src_read]. apply Nat.leb_le in Hfit. rewrite Hfit.
+  cbn [set_berr berr tracked_err tracked script win].
+  split; [reflexivity|]. split; [apply track_sets; exact Hne|]. split; reflexivity.
+Qed.
